@@ -72,7 +72,8 @@ def reward_family_for(lp_desc, draw, exact_only=False, allow_float_binary=True):
     name, params = lp_desc
     if name == "ThompsonSampling":
         if params.get("binarizer") is not None:
-            return draw(st.sampled_from(["Eint", "E"]))
+            # mostly the small range around the thresholds, where the conversion depends on the arm
+            return draw(st.sampled_from(["Sint", "S", "Sint", "Eint", "E"]))
         return draw(st.sampled_from(["B", "Bf"])) if allow_float_binary else "B"
     if name == "Popularity":
         return "Epos" if exact_only else draw(st.sampled_from(["Epos", "Epos", "Fpos"]))
